@@ -289,6 +289,10 @@ static int add_matchers(struct fetch *f, const cJSON *path, bool ignore_case)
 		}
 		matcher = matcher->next;
 	}
+	if (unlikely(match_index != f->number_of_matchers)) {
+		/* e.g. 'case_insensitive' given more than once: not every matcher slot was filled */
+		goto error;
+	}
 	return 0;
 error:
 	free_matcher(f);
